@@ -7,7 +7,7 @@ set -u
 mod="$1"; prop="$2"; tier="${3:-quick}"; shift; shift; shift || true
 here="$(cd "$(dirname "$0")" && pwd)"
 d="$(mktemp -d /tmp/alt.XXXXXX)"
-trap 'git -C /repo worktree remove --force "$d/repo" >/dev/null 2>&1; rm -rf "$d"' EXIT
+[ -n "${ALT_KEEP:-}" ] && echo "keeping $d" || trap 'git -C /repo worktree remove --force "$d/repo" >/dev/null 2>&1; rm -rf "$d"' EXIT
 git -C /repo worktree add -q --detach "$d/repo" HEAD || exit 2
 case "$mod" in
   revert:*) git -C "$d/repo" revert --no-commit "${mod#revert:}" >/dev/null || { echo "revert failed"; exit 2; } ;;
